@@ -39,10 +39,16 @@ def run_config(ctx, config):
             n += 1
         opforms.assign_ops(ctx, "assign-through-operator", config, w, q)
     ctx.floor("%s: Add/Sub/Div<Self> forwarders" % config, n, 3 * {"f64-all": 23, "dec-all": 19}.get(config, 13))
-    ov = G.overrides(ctx, "override", U, model.T_HRU, {"REF_UNIT"}, "HasRefUnit")
-    for tk, (extra, imp) in ov.items():
-        if set(extra) & {"add", "sub", "div", "equiv_amount"}:
-            ctx.fail("override", "%s/%s" % (config, tk), "impl HasRefUnit for %s overrides %s" % (tk, extra), imp["span"])
+    from . import ovequiv
+    for trait, allowed, label, rel in ((model.T_HRU, {"REF_UNIT"}, "HasRefUnit", {"add", "sub", "div", "equiv_amount"}),
+                                       (model.T_LSU, {"REF_UNIT", "scale"}, "LinearScaledUnit", {"ratio"})):
+        for tk, (extra, imp) in G.overrides(ctx, "override", U, trait, allowed, label).items():
+            extra = [x for x in extra if x in rel]
+            if extra:
+                extra = ovequiv.filter_equivalent(ctx, "override", config, w, label, tk, extra, imp)
+            if extra:
+                ctx.fail("override", "%s/%s" % (config, tk), "impl %s for %s overrides %s with something other than the default specialised to this type"
+                         % (label, tk, extra) + ovequiv.reasons(ctx, config, tk, label, extra), imp["span"])
 
 
 def decimal_accuracy(ctx, config):
